@@ -90,7 +90,8 @@ func runC19(o *cli.Opts, run *evid.Run) {
 		d, b int
 		tag  string
 	}
-	specs := []spec{{"insertion", 3, 2, "A"}, {"deletion", 3, 2, "A"}}
+	// (1,2): a batch that fills the whole tree
+	specs := []spec{{"insertion", 3, 2, "A"}, {"deletion", 3, 2, "A"}, {"insertion", 1, 2, "A"}}
 	if o.Thorough() {
 		specs = append(specs, spec{"insertion", 3, 2, "B"}, spec{"insertion", 1, 1, "A"}, spec{"deletion", 1, 1, "A"}, spec{"insertion", 10, 3, "A"}, spec{"deletion", 20, 1, "A"}, spec{"insertion", 32, 1, "A"}, spec{"deletion", 31, 1, "A"})
 	}
@@ -242,6 +243,50 @@ func runC19(o *cli.Opts, run *evid.Run) {
 		prove(s, key+"/prove", res.Stdout, true, hash, "pipeline/gen-test-params|prove", map[string]any{"mode": s.mode, "depth": s.d, "batch": s.b})
 	})
 	run.Stage("pipeline")
+	// 1b. gen-test-params must work at every supported dimension (no setup needed): in particular batches that fill
+	// the tree (insertion: batch = 2^depth, deletion: 2*batch = 2^depth)
+	{
+		type gd struct {
+			mode string
+			d, b int
+		}
+		var dims []gd
+		for _, d := range []int{1, 2, 3, 4, 6} {
+			for _, b := range []int{1, 1 << uint(d-1), 1<<uint(d-1) + 1, 1 << uint(d)} {
+				if b >= 1 && b <= 1<<uint(d) {
+					dims = append(dims, gd{"insertion", d, b})
+				}
+				if b >= 1 && 2*b <= 1<<uint(d) {
+					dims = append(dims, gd{"deletion", d, b})
+				}
+			}
+		}
+		dims = append(dims, gd{"insertion", 32, 3}, gd{"deletion", 31, 3}, gd{"insertion", 20, 100}, gd{"deletion", 20, 100})
+		cli.ForEach(len(dims), 8, func(i int) {
+			g := dims[i]
+			key := fmt.Sprintf("C19/gen-test-params/%s/d=%d/b=%d", g.mode, g.d, g.b)
+			if !run.Wants(key) {
+				return
+			}
+			res := proc.Run(bin, nil, 5*time.Minute, nil, "gen-test-params", "--mode", g.mode, "--tree-depth", fmt.Sprint(g.d), "--batch-size", fmt.Sprint(g.b))
+			run.Add("cli_invocations", 1)
+			ok := res.Exit == 0
+			if ok {
+				if g.mode == "insertion" {
+					_, err := ref.ReadIns(res.Stdout)
+					ok = err == nil
+				} else {
+					_, err := ref.ReadDel(res.Stdout)
+					ok = err == nil
+				}
+			}
+			if !ok {
+				run.Violate(key, fmt.Sprintf("gen-test-params for a supported dimension (%s depth %d batch %d) fails (exit %d) or prints something that is not a parameter document: %s", g.mode, g.d, g.b, res.Exit, tailOf(res.Stderr)), nil)
+			}
+			run.Case("gen-test-params/"+g.mode, true, key, ok, map[string]any{"mode": g.mode, "depth": g.d, "batch": g.b})
+		})
+	}
+	run.Stage("gen-test-params")
 	// 2. prove on independently written documents (valid incl. short roots; unprovable)
 	type pjob struct {
 		s *c19Sys
